@@ -1,12 +1,15 @@
 """C prototypes of the installed public headers (plus the private error API header): name, return type, argument types."""
 import os, re
-from lex import dump, strip_comments, INSTALLED
+from lex import dump, strip_comments, installed
 
 
 def protos_of(txt):
     txt = strip_comments(txt)
     txt = re.sub(r"^[ \t]*#.*$", "", txt, flags=re.M)
     txt = re.sub(r"\bGNUC_PRINTF\s*\([^)]*\)", "", txt)
+    # attribute decorations carry no type information: __attribute__((...)), and project macros of the XRL_DEPRECATED kind (all but XRL_EXTERN)
+    txt = re.sub(r"__attribute__\s*\(\((?:[^()]|\([^()]*\))*\)\)", " ", txt)
+    txt = re.sub(r"\bXRL_(?!EXTERN\b|ERROR_)[A-Z][A-Z_0-9]*\b(?:\s*\([^()]*\))?", " ", txt)
     res = []
     for m in re.finditer(r"(?:XRL_EXTERN\s+)?((?:const\s+)?(?:struct\s+)?\w+(?:\s*\*+|\s+\*+|\s+))\s*(\w+)\s*\(([^;{}()]*)\)\s*;", txt):
         ret, name, args = m.group(1).strip(), m.group(2), m.group(3).strip()
@@ -29,7 +32,7 @@ def protos_of(txt):
 
 def run(repo, root, out):
     allp = []
-    for h in INSTALLED:
+    for h in installed(repo):
         for p in protos_of(open(os.path.join(repo, "include", h)).read()):
             p["header"] = h; allp.append(p)
     for p in protos_of(open(os.path.join(repo, "src", "xraylib-error-private.h")).read()):
